@@ -124,6 +124,8 @@ def sensor_ok(value, raw, tenths, fahrenheit):
         return None if value is None else f"0xFF sentinel must be unknown, got {value!r}"
     if value is None:
         return f"raw 0x{raw:02x} is not the sentinel but value is unknown"
+    if tenths > 9:
+        return None          # not a digit: outside the property's quantifier (only the sentinel rule applies)
     coarse = (raw - 50) / 2
     if abs(value - coarse) > 1.0 + 1e-9:
         return f"value {value} more than one degree from coarse {coarse}"
@@ -188,12 +190,12 @@ def build_prop_reply(rid, items):
 
 
 def build_b5(records, additional=None, count=None):
-    """records: [(cap_id, value_bytes)] -> body. additional None => no trailer at all."""
+    """records: [(cap_id, value_bytes)] -> body. additional None => no 'additional' flag byte."""
     out = bytearray([0xB5, len(records) if count is None else count])
     for cid, val in records:
         out += bytes([cid & 0xFF, cid >> 8, len(val)]) + bytes(val)
     if additional is not None:
-        out += bytes([1 if additional else 0, 0])
+        out += bytes([1 if additional else 0])    # followed by the message id, then the check byte
     return bytes(out)
 
 
